@@ -676,6 +676,28 @@ def funder_can_pay(ct, d, local, addl, feerate):
     return bal - anch * 1000 - fee * 1000 >= 0
 
 
+def next_remote_view(d, fulfilled_out_ids):
+    """(value_to_self_msat, HTLCs) of the peer's NEXT commitment as the node with dump `d` predicts it when it
+    validates an incoming update_add_htlc (get_next_commitment_htlcs / get_next_commitment_value_to_self_msat with
+    local = false, counterparty-unknown HTLCs excluded), optionally with some of its committed outbound HTLCs
+    already fulfilled by the peer."""
+    to_self = d["self"]
+    hs = []
+    for (hid, amt, cltv, h, st) in d["in"]:
+        if st in (0, 1, 2, 3):
+            hs.append((False, amt))
+        elif st == 5:                      # LocalRemoved(Fulfill): gone from the peer's commitment, ours
+            to_self += amt
+    for (hid, amt, cltv, h, st) in d["out"]:
+        if hid in fulfilled_out_ids and st == 1:
+            to_self -= amt
+        elif st in (1, 2, 3):              # Committed, RemoteRemoved (not yet acknowledged by us)
+            hs.append((True, amt))
+        elif st in (5, 7):                 # removal (success) already revoked-in: the peer's
+            to_self -= amt
+    return to_self, hs
+
+
 def classify_known(rec, f):
     """Maps a trace-judge failure to the key of a known class of findings (or None). The class
     predicates are re-checked on the trace itself so that only that exact class is ever excused; any
@@ -714,12 +736,14 @@ def classify_known(rec, f):
                 kinds = [m[0] for m in batch]
                 fulfilled = [m[1] for m in batch if m[0] == "fulfill"]
                 if fulfilled and "add" in kinds and kinds.index("fulfill") > kinds.index("add"):
-                    hs = [(False, h[1]) for h in d["in"]] + [(True, h[1]) for h in d["out"]] + [(False, add_amt)]
+                    # the receiver's view of the sender's next commitment, as validate_update_add_htlc takes it
+                    # (BOLT-2 inclusion by HTLC state: removals already irrevocable on that commitment are
+                    # out and credited), without / with the fulfills of the same batch applied
                     fr = max(d["fr"], d["pfee"][0] if d["pfee"] else 0)
-                    before = ref_ncs(ct, False, bool(d["fund"]), d["v"], d["self"], 0, fr, False, d["cd"], hs)
-                    paid = sum(h[1] for h in d["out"] if h[0] in fulfilled)
-                    hs2 = [(False, h[1]) for h in d["in"]] + [(True, h[1]) for h in d["out"] if h[0] not in fulfilled] + [(False, add_amt)]
-                    after = ref_ncs(ct, False, bool(d["fund"]), d["v"], d["self"] - paid, 0, fr, False, d["cd"], hs2)
+                    s1, hs = next_remote_view(d, ())
+                    before = ref_ncs(ct, False, bool(d["fund"]), d["v"], s1, 0, fr, False, d["cd"], hs + [(False, add_amt)])
+                    s2, hs2 = next_remote_view(d, fulfilled)
+                    after = ref_ncs(ct, False, bool(d["fund"]), d["v"], s2, 0, fr, False, d["cd"], hs2 + [(False, add_amt)])
                     res = d["hres"] * 1000
                     if (before is None or before[1] < res) and after is not None and after[1] >= res:
                         return KEY_HCORDER
@@ -919,13 +943,13 @@ def run(ctx):
         small = line
         if key is None:
             try:
-                small = T.shrink(ctx, ref_commit, line, f["judge"])
+                small = T.shrink(ctx, ref_commit, line, f["judge"], same_class=lambda r_, f_: classify_known(r_, f_) is None)
             except Exception as ex:  # shrinking is best effort
                 ctx.log("shrink failed:", repr(ex))
         if key is None:
             found_any = True
         ctx.violation("C01 fails on real nodes (%s): %s" % (f["judge"], f["why"][:500]),
-                      {"broken": broken_placeholder(proved, dis, mdis), "failing_input": {"schedule": small, "original_schedule": line, "step": f["step"], "judge": f["judge"], "why": f["why"]},
+                      {"broken": broken_placeholder(proved, dis, mdis), "broken_detail": broken, "failing_input": {"schedule": small, "original_schedule": line, "step": f["step"], "judge": f["judge"], "why": f["why"]},
                        "replay_kind": "h_chan", "replay_cmd": "%s <file with the schedule line> <out>" % ctx.bin_path("h_chan")}, True, key=key)
     if fails:
         fails.sort(key=lambda x: len(x["case_line"]))
